@@ -302,8 +302,7 @@ func (f *Frame) loadPtr(v Value, ptrT types.Type) Term {
 	st := elem.Underlying().(*types.Struct)
 	fs := make([]Term, st.NumFields())
 	for i := range fs {
-		hn, hs := e.fieldHeapName(elem, i)
-		fs[i] = sel(e.heap(f.st, hn, hs), v.T)
+		fs[i] = e.loadAddr(f.st, e.fieldLoc(elem, i, v.T))
 	}
 	return e.mkStruct(elem, fs)
 }
@@ -317,8 +316,7 @@ func (f *Frame) storePtr(v Value, ptrT types.Type, nv Term) {
 	elem := ptrT.Underlying().(*types.Pointer).Elem()
 	st := elem.Underlying().(*types.Struct)
 	for i := 0; i < st.NumFields(); i++ {
-		hn, hs := e.fieldHeapName(elem, i)
-		e.setHeap(f.st, hn, store(e.heap(f.st, hn, hs), v.T, e.structField(nv, elem, i)))
+		e.storeAddr(f.st, e.fieldLoc(elem, i, v.T), e.structField(nv, elem, i))
 	}
 }
 
@@ -783,8 +781,7 @@ func (f *Frame) alloc(x *ssa.Alloc) Value {
 	switch u := elem.Underlying().(type) {
 	case *types.Struct:
 		for i := 0; i < u.NumFields(); i++ {
-			hn, hs := e.fieldHeapName(elem, i)
-			e.setHeap(f.st, hn, store(e.heap(f.st, hn, hs), obj, e.zero(u.Field(i).Type())))
+			e.storeAddr(f.st, e.fieldLoc(elem, i, obj), e.zero(u.Field(i).Type()))
 		}
 	case *types.Array:
 		hn, hs := e.elemHeapName(e.sortOf(u.Elem()))
@@ -810,8 +807,7 @@ func (f *Frame) fieldAddr(x *ssa.FieldAddr) Value {
 		return Value{Addr: &a}
 	}
 	f.nilCheck(x, x.X, base.T)
-	hn, hs := e.fieldHeapName(st, x.Field)
-	return Value{Addr: &Addr{heap: hn, hsort: hs, keys: []Term{base.T}, typ: ftyp}}
+	return Value{Addr: e.fieldLoc(st, x.Field, base.T)}
 }
 
 // nilCheck emits a nil-deref obligation unless the pointer is a parameter/receiver or loaded from one (A12).
@@ -946,7 +942,12 @@ func (f *Frame) unop(x *ssa.UnOp) Value {
 		if av.Addr == nil {
 			f.nilCheck(x, x.X, av.T)
 		}
-		t := e.define(f.name(x.Name()), f.loadPtr(av, x.X.Type()))
+		raw := f.loadPtr(av, x.X.Type())
+		t := e.define(f.name(x.Name()), raw)
+		if n, ok := e.globLen[raw.S]; ok {
+			// byte-slice literal global still holding its initial value: make the length syntactically constant
+			t = mkSlice(sReg(t), sOff(t), i64(int64(n)), sCap(t))
+		}
 		if f.trustedLoad(x) {
 			e.assumeExisting(f.st, f.guard, t, x.Type())
 		} else {
